@@ -20,11 +20,11 @@ def gen_cases(rng: random.Random, quick: bool) -> list[dict]:
             plan = [{"step": "/b", "tag": f"0.{i}", "phase": "execute", "kind": "failstop", "count": 1, "lose": [["/b", f"0.{i}"], ["/a", "0"]]}
                     for i in els]
             cases.append({"name": f"scatter{m}-failstop{els}-seed{seed}", "shape": {"kind": "scatter", "m": m}, "plan": plan,
-                          "max_retries": 8, "trace_fm": True, "lseed": seed, "timeout": 150})
+                          "max_retries": 8, "trace_fm": True, "lseed": seed})
     for seed in ([None] if quick else [None, 3, 11]):
         plan = [{"step": s, "tag": "0", "phase": "execute", "kind": "failstop", "count": 1, "lose": [[s, "0"], ["/a", "0"]]} for s in ("/b1", "/b2")]
         cases.append({"name": f"diamond-b1-b2-failstop-seed{seed}", "shape": {"kind": "diamond"}, "plan": plan, "max_retries": 8,
-                      "trace_fm": True, "lseed": seed, "timeout": 150})
+                      "trace_fm": True, "lseed": seed})
     refs = {}
     for c in list(cases):
         key = json.dumps(c["shape"], sort_keys=True)
@@ -65,7 +65,7 @@ def judge(case: dict, r: dict, ref: dict | None) -> list[tuple[str, str]]:
         return fails
     if ref is not None and ref.get("outcome") == "ok" and ref["outputs"] != r["outputs"]:
         fails.append(("outputs-differ-from-failure-free-run", f"{name}"))
-    bad = {s: st for s, st in r["statuses"].items() if st != "COMPLETED"}
+    bad = {s: st for s, st in r["statuses"].items() if st not in ("COMPLETED", "SKIPPED")}
     if bad:
         fails.append(("step-not-completed", f"{name}: {bad}"))
     conflict = lock_order_conflict(r.get("fm_events", []))
@@ -122,7 +122,7 @@ class C19(Property):
         quick = ctx.tier == "quick" and ctx.mode != "search"
         cases = gen_cases(ctx.rng, quick)
         results = {}
-        for case, status, r in pmap(recov.run_case, cases, timeout=400, workers=6):
+        for case, status, r in pmap(recov.run_case, cases, timeout=900, workers=6):
             results[case["name"]] = (case, status, r)
         lines, meta = [], []
         for name, (case, status, r) in results.items():
